@@ -77,6 +77,9 @@ fn main() {
         (Tier::Quick, None)
     };
     let threads = std::env::var("VERIF_THREADS").ok().and_then(|s| s.parse().ok()).unwrap_or(16);
+    if replay.is_some() {
+        ev::REPLAY_MODE.store(true, std::sync::atomic::Ordering::Relaxed);
+    }
     let ctx = Ctx { tier, seed: ev::seed_from_env(), replay, threads };
     vcore::lw::quiet_panics();
     // time budget: exceeding it is "inconclusive", never a violation
